@@ -77,8 +77,13 @@ func vBuildNode(pfx, id string, K int) (*nodeState, uint64) {
 		n.Entries[key] = e
 	}
 	_, n.Left = n.Entries[leftKey]
+	vCompactC[n] = c
 	return n, c
 }
+
+// vCompactC remembers, per built node state, the symbolic discard point c of
+// its compaction marker (the marker's value is decimal(c)).
+var vCompactC = map[*nodeState]uint64{}
 
 // vWfOwner: what every owner state satisfies (proved inductive for the four
 // local writers by Harness_C17_step).
@@ -130,51 +135,108 @@ func vMarker(n *nodeState, c uint64) (uint64, uint64) {
 	return 0, 0
 }
 
-// vInv: the observer invariant inv(o, w) of DESIGN.md §6 for the view w a
-// node holds of owner o. (M, c) is the owner's current compaction marker.
+// vClause is one named conjunct of the observer invariant.
+type vClause struct {
+	Name string
+	OK   bool
+}
+
+// vInvClauses: the observer invariant inv(o, w) of DESIGN.md §6 for the view
+// w a node holds of owner o. (M, c) is the owner's current compaction marker.
 //
 //	(a) w.Version <= o.Version
 //	(b) every owner entry with version <= w.Version is in the view, equal
-//	(c) every view entry has version <= w.Version and is the owner's entry,
-//	    or the owner's entry for that key is newer than w.Version, or it is
-//	    stale: version <= c and w.Version < M (it disappears when the marker arrives)
+//	(c) every view entry has 1 <= version <= w.Version and is the owner's
+//	    entry, or an older write of a key the owner has since rewritten past
+//	    w.Version, or it is stale: version <= c and w.Version < M (it
+//	    disappears when the marker arrives). A view entry is never newer than
+//	    the owner's entry for the same key, and equal versions mean equal
+//	    entries. The left marker is written once and only ever re-versioned by
+//	    compaction, so a view's left marker is the owner's or is stale with the
+//	    owner's re-versioned one in (c, M).
 //	(d) w.Version > 0 => the view holds an entry with that version
-//	(e) w.Left <=> the view holds the left marker (hence w.Left => o.Left)
-func vInv(o *nodeState, oc uint64, w *nodeState, K int) bool {
+//	(e) the view holds the left marker => w.Left => o.Left
+//	(f) versions inside the view are pairwise distinct
+func vInvClauses(o *nodeState, oc uint64, w *nodeState, K int) []vClause {
 	x := w.Version
 	M, c := vMarker(o, oc)
-	ok := x <= o.Version
+	var cl []vClause
+	add := func(name string, ok bool) { cl = append(cl, vClause{name, ok}) }
+	add("a-not-ahead", x <= o.Version)
 	hasX := false
-	for _, k := range vKeys(K) {
+	keys := vKeys(K)
+	for i, k := range keys {
 		oe, op := o.Entries[k]
 		we, wp := w.Entries[k]
 		if op {
 			if wp {
-				ok = v.And(ok, v.Implies(oe.Version <= x, we == oe))
+				add("b-complete-upto-version", v.Implies(oe.Version <= x, we == oe))
 			} else {
-				ok = v.And(ok, oe.Version > x)
+				add("b-complete-upto-version", oe.Version > x)
 			}
 		}
 		if wp {
-			ok = v.And(ok, we.Version <= x)
-			ok = v.And(ok, we.Version >= 1)
+			add("c-entry-version-bounded", v.And(we.Version <= x, we.Version >= 1))
 			hasX = v.Or(hasX, we.Version == x)
 			stale := v.And(we.Version <= c, x < M)
 			if op {
-				ok = v.And(ok, v.Or(we == oe, v.Or(oe.Version > x, stale)))
+				add("c-entry-genuine-or-stale", v.Or(we == oe, v.Or(oe.Version > x, stale)))
+				add("c-entry-not-newer", v.Or(we == oe, we.Version < oe.Version))
+				if k == compactKey {
+					// the marker is only ever rewritten by a later compaction,
+					// whose discard point covers every earlier version
+					add("c-marker-rewritten-by-compaction", v.Or(we == oe, we.Version <= c))
+				}
 			} else {
-				ok = v.And(ok, stale)
+				add("c-entry-genuine-or-stale", stale)
+				if k == leftKey || k == compactKey {
+					add("c-internal-never-deleted", false)
+				}
+			}
+			if k == compactKey {
+				// a marker held by a view is a genuine old marker (Mw, cw):
+				// cw < Mw and applying it removed everything at or below cw
+				cw, err := strconv.ParseUint(we.Value, 10, 64)
+				add("g-view-marker-wellformed", err == nil)
+				add("g-view-marker-wellformed", cw < we.Version)
+				for _, k2 := range keys {
+					if w2, p2 := w.Entries[k2]; p2 && k2 != compactKey {
+						add("g-view-marker-wellformed", w2.Version > cw)
+					}
+				}
+			}
+			for _, k2 := range keys[i+1:] {
+				if w2, p2 := w.Entries[k2]; p2 {
+					add("f-distinct-versions", we.Version != w2.Version)
+				}
 			}
 		}
 	}
 	if len(w.Entries) == 0 {
-		ok = v.And(ok, x == 0)
+		add("d-version-witness", x == 0)
 	} else {
-		ok = v.And(ok, hasX)
+		add("d-version-witness", hasX)
 	}
 	_, hasLeft := w.Entries[leftKey]
-	ok = v.And(ok, w.Left == hasLeft)
+	// the flag is set when the left marker is applied and never cleared; the
+	// marker entry itself can be transiently absent (a relayed old compaction
+	// marker may discard it before its re-versioned copy arrives)
+	add("e-left-flag", v.And(v.Implies(hasLeft, w.Left), v.Implies(w.Left, o.Left)))
+	return cl
+}
+
+func vInv(o *nodeState, oc uint64, w *nodeState, K int) bool {
+	ok := true
+	for _, c := range vInvClauses(o, oc, w, K) {
+		ok = v.And(ok, c.OK)
+	}
 	return ok
+}
+
+func vAssertInv(tag string, o *nodeState, oc uint64, w *nodeState, K int) {
+	for _, c := range vInvClauses(o, oc, w, K) {
+		v.Assert(tag+"/"+c.Name, c.OK)
+	}
 }
 
 // vSnapshot copies a node's entries.
